@@ -108,6 +108,18 @@ fn carg<'a>(c: &'a Value, k: &str) -> &'a Value {
 }
 
 pub fn mk_gas(g: &Value) -> GAS {
+    let acc = |s: &str| match s {
+        "Undefined" => AccessSize::Undefined,
+        "ByteAccess" => AccessSize::ByteAccess,
+        "WordAccess" => AccessSize::WordAccess,
+        "DwordAccess" => AccessSize::DwordAccess,
+        "QwordAccess" => AccessSize::QwordAccess,
+        x => panic!("access {x}"),
+    };
+    if has(g, "device") {
+        // the other public constructor: PCI configuration space by device / function / register
+        return GAS::new_pci_config(u8_of(get(g, "width")), acc(str_of(get(g, "access"))), u8_of(get(g, "device")), u8_of(get(g, "function")), u16_of(get(g, "register")));
+    }
     let space = match str_of(get(g, "space")) {
         "SystemMemory" => AddressSpace::SystemMemory,
         "SystemIo" => AddressSpace::SystemIo,
